@@ -118,6 +118,17 @@ class C09(Prop):
                     break
             if len(out) >= 3:
                 break
+        # two tasks join the same group (join() / leaving the context manager); one of them is cancelled while it waits: the
+        # group's tasks are cancelled and waited for, whichever joiner it was
+        for policy in (all, any, object):
+            for second_via in ('join', 'aexit'):
+                for cancel in ('second', 'first'):
+                    o = two_joiners(policy, second_via, cancel)
+                    ns += 1
+                    if o['still_running'] or not o['joined'] or o['late_add'] == 'added':
+                        out.append(Failure({'kind': 'two_joiners', 'policy': getattr(policy, '__name__', str(policy)), 'second_joiner_via': second_via, 'cancelled': cancel}, o,
+                                           f"two tasks were joining the group; the {cancel} one was cancelled while it waited and its join ended with {o['still_running']} "
+                                           f"tasks of the group still running (joined = {o['joined']}, a later add was {o['late_add']})"))
         ctx['extra_evals'] += ns
         ctx['notes'].append(f'groups of 1..150 (and >1024) members on a plain event loop, ended by a raising body / clean exit / failing member / cancel_remaining in the body: {ns} runs')
         return out
@@ -208,6 +219,54 @@ def big_group(nm, how):
         info.setdefault('never_cancelled_running', -1)
         info.setdefault('joined', None)
         info.setdefault('late_add', None)
+    finally:
+        loop.close()
+    return info
+
+
+def two_joiners(policy, second_via, cancel):
+    import asyncio
+    from aiorpcx import TaskGroup
+    info = {}
+
+    async def member(i):
+        await asyncio.sleep(3600)
+
+    async def main():
+        g = TaskGroup(wait=policy)
+        tasks = [await g.spawn(member(i), daemon=(i == 3)) for i in range(4)]
+
+        async def j1():
+            await g.join()
+
+        async def j2():
+            if second_via == 'join':
+                await g.join()
+            else:
+                async with g:
+                    pass
+        t1 = asyncio.ensure_future(j1())
+        await asyncio.sleep(0.01)
+        t2 = asyncio.ensure_future(j2())
+        await asyncio.sleep(0.01)
+        victim = t2 if cancel == 'second' else t1
+        victim.cancel()
+        await asyncio.wait([victim], timeout=5)
+        info['cancelled_joiner_finished'] = victim.done()
+        info['still_running'] = sum(1 for t in tasks if not t.done())
+        info['joined'] = g.joined
+        try:
+            t = await g.spawn(asyncio.sleep(0))
+            info['late_add'] = 'added'
+        except RuntimeError:
+            info['late_add'] = 'refused'
+        rest = [t for t in asyncio.all_tasks() if t is not asyncio.current_task()]
+        for t in rest:
+            t.cancel()
+        await asyncio.gather(*rest, return_exceptions=True)
+    loop = asyncio.new_event_loop()
+    try:
+        loop.run_until_complete(asyncio.wait_for(main(), 30))
     finally:
         loop.close()
     return info
